@@ -285,11 +285,12 @@ def replay_side(path, engine, prop):
             meta[k.strip()] = v.strip()
         elif l.strip():
             vals.append(l.strip())
-    if engine in ("e4", "e5"):
+    if engine in ("e4", "e5", "e6"):
         import e4
         import e5
+        import e6
         text = open(path).read().split("# program:\n", 1)[1]
-        res, _ = (e4 if engine == "e4" else e5).run([{"name": "replay", "text": text}])
+        res, _ = {"e4": e4, "e5": e5, "e6": e6}[engine].run([{"name": "replay", "text": text}])
         bad = bool(res) and res[0]["verdict"] == "fail"
         for f in (res[0]["failed"] if res else [])[:3]:
             print("replay[%s] " % engine + f["check"])
@@ -325,7 +326,7 @@ def replay_file(path):
             engine = l.split(":", 1)[1].strip()
         if l.startswith("# property:"):
             prop = l.split(":", 1)[1].strip()
-    if engine in ("e2", "e3", "e4", "e5"):
+    if engine in ("e2", "e3", "e4", "e5", "e6"):
         return replay_side(path, engine, prop)
     for l in open(path):
         if l.startswith("# harness:"):
@@ -540,6 +541,9 @@ def run_e4(prop, hs, tier, engine="e4"):
             import e5
             fam = {k: [p for p in v if e5.eligible(p["text"])] for k, v in fam.items()}
             e4 = e5   # same interface: run(programs) -> (results, seconds)
+        if engine == "e6":
+            import e6
+            e4 = e6
     except Exception as e:  # never a pass
         return [_side_result(h, "inconclusive", "E4 driver error: %r" % e, 0, None, 0, []) for h in hs]
     for h in hs:
@@ -552,12 +556,15 @@ def run_e4(prop, hs, tier, engine="e4"):
         except Exception as e:
             out.append(_side_result(h, "inconclusive", "E4 driver error: %r" % e, 0, None, 0, []))
             continue
-        bad = [r for r in res if r["verdict"] == "fail"]
+        # a failed condition counts for the properties named in its tag ("[C01] ..."); an untagged one (pipeline panic) for all
+        for r in res:
+            r["failed"] = [f for f in r["failed"] if check_relevant(prop, {"desc": f["check"]})]
+        bad = [r for r in res if r["verdict"] == "fail" and r["failed"]]
         inc = [r for r in res if r["verdict"] == "inconclusive"]
         nq = sum(r["queries"] for r in res)
         nclaims = sum(r["claims"] for r in res)
         if bad:
-            verdict, reason = "fail", "%d of %d programs carry a %s" % (len(bad), len(res), "false claim" if engine == "e4" else "liveness defect")
+            verdict, reason = "fail", "%d of %d programs carry a %s" % (len(bad), len(res), {"e4": "false claim", "e5": "liveness defect", "e6": "control-flow defect"}[engine])
         elif inc:
             verdict, reason = "inconclusive", "%d of %d programs inconclusive (%s)" % (len(inc), len(res), inc[0]["reason"])
         else:
@@ -565,8 +572,9 @@ def run_e4(prop, hs, tier, engine="e4"):
             naux = sum(r.get("aux_tags_not_inductive", 0) for r in res)
             if naux:
                 reason += "; %d auxiliary CSR tags/facts of the tool are not inductive (not C01-kind claims: dropped, nothing may rest on them)" % naux
-        sr = _side_result(h, verdict, reason, dt, None, nq, ["AvailableValuePass::run (native, via Manager::gen_full_cfg)"] if engine == "e4" else
-                          ["LivenessPass::run (native, via Manager::gen_full_cfg)"])
+        sr = _side_result(h, verdict, reason, dt, None, nq, {"e4": ["AvailableValuePass::run (native, via Manager::gen_full_cfg)"],
+                                                              "e5": ["LivenessPass::run (native, via Manager::gen_full_cfg)"],
+                                                              "e6": ["Cfg::new / NodeDirectionPass / EcallTerminationPass (native, via Manager::gen_full_cfg)"]}[engine])
         sr["programs"] = len(res)
         sr["claims"] = nclaims
         sr["sample_program"] = res[len(res) // 2]["text"]
@@ -581,8 +589,9 @@ def run_e4(prop, hs, tier, engine="e4"):
             with open(path, "w") as fh:
                 fh.write("# property: %s\n# engine: %s\n# harness: %s\n# check: %s\n# model: %s\n# program:\n%s" % (
                     prop, engine, h["name"], f["check"], json.dumps(f.get("model", {})), r["text"]))
-            sr["failed"].append({"check": f["check"], "file": "riscv_analysis/src/analysis/available.rs", "line": None,
-                                 "function": "AvailableValuePass::run" if engine == "e4" else "LivenessPass::run", "replay": path, "values": f.get("model"),
+            sr["failed"].append({"check": f["check"], "file": {"e4": "riscv_analysis/src/analysis/available.rs", "e5": "riscv_analysis/src/analysis/liveness.rs",
+                                                               "e6": "riscv_analysis/src/cfg/graph.rs"}[engine], "line": None,
+                                 "function": {"e4": "AvailableValuePass::run", "e5": "LivenessPass::run", "e6": "Manager::gen_full_cfg"}[engine], "replay": path, "values": f.get("model"),
                                  "dev": "reproduced" if f.get("reproduced") else "not-reproduced",
                                  "dev_msg": "program %s" % r["name"], "program": r["name"], "release": None})
         out.append(sr)
@@ -615,6 +624,7 @@ def run_property(prop, tier, seed, jobs, only, write_evidence=True):
     e3_hs = [h for h in hs if h.get("engine") == "e3"]
     e4_hs = [h for h in hs if h.get("engine") == "e4"]
     e5_hs = [h for h in hs if h.get("engine") == "e5"]
+    e6_hs = [h for h in hs if h.get("engine") == "e6"]
     hs = [h for h in hs if h.get("engine", "kani") == "kani"]
     side = []
 
@@ -634,6 +644,8 @@ def run_property(prop, tier, seed, jobs, only, write_evidence=True):
         side.append(guarded(run_e4, e4_hs, tier))
     if e5_hs:
         side.append(guarded(run_e4, e5_hs, tier, engine="e5"))
+    if e6_hs:
+        side.append(guarded(run_e4, e6_hs, tier, engine="e6"))
     for t in side:
         t.start()
     with cf.ThreadPoolExecutor(max_workers=jobs) as ex:
@@ -734,7 +746,7 @@ def write_evidence_file(prop, tier, seed, results, violations, known_hits, incon
                      "obligation names are distinct by construction"),
             "samples": samples,
             "exhaustive": False,
-            "engine": "E1: Kani 0.68.0 / CBMC 6.11.0 (CaDiCaL), dev profile; E2: MIR (nightly -Zunpretty=mir, overflow-checks on and off) -> SMT-LIB, z3 4.8.12 + cvc5 1.0; E3: native decode of catalogue text + SMT-LIB, z3 + cvc5; E4: native pipeline on exhaustively enumerated program families + inductive-invariant VCs, z3; E5: the same programs' liveness sets + non-interference VCs, z3",
+            "engine": "E1: Kani 0.68.0 / CBMC 6.11.0 (CaDiCaL), dev profile; E2: MIR (nightly -Zunpretty=mir, overflow-checks on and off) -> SMT-LIB, z3 4.8.12 + cvc5 1.0; E3: native decode of catalogue text + SMT-LIB, z3 + cvc5; E4: native pipeline on exhaustively enumerated program families + inductive-invariant VCs, z3; E5: the same programs' liveness sets + non-interference VCs, z3; E6: the same programs' control-flow graph + next-pc coverage VCs, z3",
             "functions_encoded": functions,
             "queries_discharged": sum(r["n_checks"] for r in conclusive),
             "solver_time_s": round(sum(r["solver_s"] or 0 for r in results), 2),
